@@ -3,11 +3,15 @@
 Verifies a seeded change produced by a sub-agent in a scratch copy (demo fails with / passes without the
 change, existing suite passes with it), runs the given quick checks against the changed copy, and stores
 patch.diff, the demo and meta.json under /verif/seeded/<name>/."""
+HSNAP = None
 import json, os, shutil, subprocess, sys, time
 wt, name = sys.argv[1], sys.argv[2]
 checks = sys.argv[sys.argv.index("--checks") + 1].split(",") if "--checks" in sys.argv else []
 skip_suite = "--skip-suite" in sys.argv
 VERIF = "/verif"
+import tempfile
+HSNAP = tempfile.mkdtemp(prefix="vf-harness-")
+shutil.rmtree(HSNAP); shutil.copytree("/verif/harness", HSNAP)
 seed = os.path.join(wt, "SEED")
 meta = json.load(open(os.path.join(seed, "meta.json")))
 d = "/tmp/vf-seedchk-" + name
@@ -46,7 +50,7 @@ result = dict(demo_fails_with_change=r1.returncode != 0, demo_passes_without_cha
 print(name, result)
 caught = {}
 for c in checks:
-    e = dict(os.environ, VERIF_REPO=d, VERIF_WORK=d + ".work", VERIF_EVIDENCE_DIR=d + ".ev", VERIF_BUILD=d + ".build")
+    e = dict(os.environ, VERIF_REPO=d, VERIF_WORK=d + ".work", VERIF_EVIDENCE_DIR=d + ".ev", VERIF_BUILD=d + ".build", VERIF_HARNESS=HSNAP)
     t0 = time.time()
     p = subprocess.run([VERIF + "/check", c, "--tier", "quick"], cwd=VERIF, env=e, capture_output=True, text=True)
     sig = [l.strip()[:200] for l in p.stdout.splitlines() if l.strip().startswith("signature=")]
